@@ -17,6 +17,10 @@ func main() {
 		cmdVerify(os.Args[2:])
 	case "check":
 		cmdCheck(os.Args[2:])
+	case "replay":
+		cmdReplay(os.Args[2:])
+	case "rt":
+		cmdRT(os.Args[2:])
 	case "sweep":
 		cmdSweep(os.Args[2:])
 	case "ledger":
